@@ -132,7 +132,7 @@ def truthy(v):
         return v.t != z3.EmptySet(v.t.sort().domain())
     if k == 'obj':
         if 'truth' not in v.a:
-            v.a['truth'] = TRUTH(v.t)
+            v.a['truth'] = truth_term(v.t)
         return v.a['truth']
     if k == 'cset':
         return z3.BoolVal(len(v.a['items']) > 0)
@@ -140,6 +140,27 @@ def truthy(v):
 
 
 TRUTH = z3.Function('truthy', Obj, z3.BoolSort())
+
+
+def truth_term(t):
+    """truthiness of an Obj term: pushed through if-then-else and the value injections, uninterpreted otherwise"""
+    if z3.is_app(t):
+        d = t.decl()
+        if d.kind() == z3.Z3_OP_ITE:
+            c, a, b = t.children()
+            return z3.If(c, truth_term(a), truth_term(b))
+        nm = d.name()
+        if nm == 'inj_bool':
+            return t.arg(0)
+        if nm == 'inj_int':
+            return t.arg(0) != 0
+        if nm == 'inj_bv':
+            return t.arg(0) != z3.BitVecVal(0, BV)
+        if nm == 'inj_str':
+            return z3.Length(t.arg(0)) > 0
+    return TRUTH(t)
+
+
 _inj = {}
 
 
